@@ -100,7 +100,7 @@ class Case:
             l.append("validator " + self.validator)
         if self.printer:
             l.append("printer 1")
-        for k in ("highlight", "signals", "paste", "helper_panic_at", "auto_add", "printers", "printers_late", "linger", "stdout_full", "max_hist", "tab_stop", "indent_size", "prompt_limit", "show_all", "bell"):
+        for k in ("highlight", "signals", "paste", "helper_panic_at", "auto_add", "printers", "printers_late", "linger", "stdout_full", "stdin_ro", "stdout_close_after", "max_hist", "tab_stop", "indent_size", "prompt_limit", "show_all", "bell"):
             if k in self.meta:
                 l.append("%s %s" % (k, self.meta[k]))
         for ks, cmd in self.binds:
@@ -673,15 +673,21 @@ def c08_cases(tier, seed):
                 r = rng.random()
                 if r < 0.45:
                     keys.append(rng.choice(["a", "b", "c", "x", "é", "日", "(", " ", "z", ","]))
-                elif r < 0.70:
+                elif r < 0.66:
                     keys.append(rng.choice(["C-r", "C-r", "C-s"]))
+                elif r < 0.70:
+                    # a numeric argument (negative too) typed inside the search, then the search key: the direction is the key's
+                    keys += [rng.choice(["M--", "M-2", "M--"]), rng.choice(["C-r", "C-s"])]
                 elif r < 0.82:
                     keys.append(rng.choice(["Backspace", "C-h"]))
                 elif r < 0.90:
                     keys.append(rng.choice(["C-g", "Esc"]))
                     break
                 else:
-                    keys.append(rng.choice(["Left", "C-a", "C-k", "Up", "C-_", "M-b", "C-e", "Down", "C-t", "Tab", "F5"]))
+                    k2 = rng.choice(["Left", "C-a", "C-k", "Up", "C-_", "M-b", "C-e", "Down", "C-t", "Tab", "F5", "C-v", "C-q", "C-v"])
+                    keys.append(k2)
+                    if k2 in ("C-v", "C-q"):
+                        keys.append(rng.choice(["q", "C-a", "é", "Tab"]))     # quoted insert ends the search and is then carried out
                     break
             keys += list(rand_text(rng, 0, 2, ["a", "Z"]))
             if rng.random() < 0.3:
